@@ -56,8 +56,13 @@ def run(repo, rep, tier):
     subsets = [c for r in range(0, 10) for c in itertools.combinations(SIZES, r)]
     nmodels = 0
     bad = []
-    for moduli in subsets:
-        for style_name, style in (('strict', strict), ('openssh-fallback', fallback)):
+
+    def fixed(moduli):
+        return lambda lo, pref, hi: moduli[0]
+    # servers that hand out one modulus whatever is requested exercise the rating thresholds at their boundaries
+    boundary = [((m,), 'fixed-modulus', fixed) for m in (1, 512, 1024, 2047, 2048, 2049, 3071, 3072, 3073, 4096, 8192)]
+    for moduli, style_name, style in [(mo, sn, st) for mo in subsets for sn, st in (('strict', strict), ('openssh-fallback', fallback))] + boundary:
+        for _once in (0,):
             policy = style(moduli)
             answers = [policy(*p) for p in FIXED]
             pos = [a for a in answers if a is not None]
@@ -116,41 +121,8 @@ def run(repo, rep, tier):
     rep.check('policies', 'the recorded modulus is the smallest the server hands out, rated by the thresholds, for %d policy x banner x algorithm models' % nmodels, not bad, gr,
               'group-exchange measurement wrong for a %s: %s [%d models deviate]' % ((bad[0][0], bad[0][1], len(bad)) if bad else ('', '', 0)), stmt='moduli policy models', sample={'rule': 'policies', 'models': nmodels})
 
-    # ---- rule 1: threshold partition ------------------------------------------------------------------------------------
-    outer = [n for n in walk_no_nested(gr) if isinstance(n, ast.If) and unparse(n.test) == 'smallest_modulus > 0' and any(isinstance(x, ast.Call) and isinstance(x.func, ast.Attribute) and x.func.attr == 'set_dh_modulus_size' for x in ast.walk(n))]
-    if len(outer) != 1:
-        raise AnalysisError('`if smallest_modulus > 0` block not found in GEXTest.run')
-    ob = outer[0]
-    chain = [n for n in ob.body if isinstance(n, ast.If) and 'smallest_modulus' in unparse(n.test) and 'openssh' not in unparse(n.test)]
-    rep.check('thresholds', 'one if/elif chain rates the measured size', len(chain) == 1 and len(chain[0].orelse) == 1 and isinstance(chain[0].orelse[0], ast.If) and not chain[0].orelse[0].orelse, chain[0] if chain else ob, 'rating chain structure changed')
-    if chain:
-        c0, c1 = chain[0], chain[0].orelse[0] if chain[0].orelse and isinstance(chain[0].orelse[0], ast.If) else None
-        sizes = [1, 512, 1024, 2047, 2048, 2049, 3071, 3072, 3073, 4096, 8192]
-        for m in sizes:
-            env = {'smallest_modulus': m}
-            b0 = bool(ev(c0.test, env))
-            b1 = (not b0) and c1 is not None and bool(ev(c1.test, env))
-            rep.evals(2)
-            want = 'fail' if m < 2048 else 'warn' if m < 3072 else 'none'
-            got = 'fail-branch' if b0 else 'warn-branch' if b1 else 'none'
-            rep.check('thresholds', 'modulus %d selects %s' % (m, want), got.startswith(want), c0, 'a %d-bit modulus takes the %s (documented: %s)' % (m, got, want))
-        # branch contents
-        t0 = unparse(c0)
-        fail_text = [n for n in walk_no_nested(c0) if isinstance(n, ast.Assign) and unparse(n.targets[0]) == 'text' and n in c0.body]
-        ok = len(fail_text) == 1 and unparse(fail_text[0].value) == "'using small %d-bit modulus' % smallest_modulus"
-        rep.check('thresholds', 'failure text names the measured size', ok, fail_text[0] if fail_text else c0, 'failure text changed')
-        inner = [n for n in c0.body if isinstance(n, ast.If)]
-        ok = len(inner) == 1 and unparse(inner[0].test) == 'len(lst) == 1' and [unparse(s) for s in inner[0].body] == ['lst.append([text])'] and [unparse(s) for s in inner[0].orelse] == ['del lst[1]', 'lst.insert(1, [text])']
-        rep.check('thresholds', 'failure text becomes row 1 (appended when the entry has only its version row, else it replaces row 1)', ok, inner[0] if inner else c0, 'row-1 edit changed: %s' % ([unparse(s) for s in inner[0].body + inner[0].orelse] if inner else '?'))
-        if c1 is not None:
-            grow = [n for n in c1.body if isinstance(n, ast.While)]
-            okg = len(grow) == 1 and unparse(grow[0].test) == 'len(lst) < 3' and [unparse(s) for s in grow[0].body] == ['lst.append([])']
-            wt = [n for n in c1.body if isinstance(n, ast.Assign) and unparse(n.targets[0]) == 'text']
-            okw = len(wt) == 1 and isinstance(wt[0].value, ast.Constant) and '2048-bit modulus' in wt[0].value.value
-            once = [n for n in c1.body if isinstance(n, ast.If) and unparse(n.test) == 'text not in lst[2]' and [unparse(s) for s in n.body] == ['lst[2].append(text)']]
-            rep.check('thresholds', 'the 2048-bit warning is placed in row 2 exactly once (row created first)', okg and okw and len(once) == 1 and grow[0].lineno < once[0].lineno, c1, 'row-2 warning edit changed')
-    lst = [n for n in walk_no_nested(gr) if isinstance(n, ast.Assign) and unparse(n.targets[0]) == 'lst']
-    rep.check('thresholds', 'the entry edited is the per-thread table row of the probed algorithm', len(lst) == 1 and unparse(lst[0].value) == "SSH2_KexDB.get_db()['kex'][gex_alg]" and lst[0] in ob.body, lst[0] if lst else gr, 'edited row: %s' % (unparse(lst[0].value) if lst else '?'))
+    # ---- rule 1: threshold partition: decided by the policy models above (fixed-modulus servers at 1, 512, 1024, 2047, 2048, 2049, 3071, 3072, 3073, 4096,
+    # 8192 bits: failure naming the size below 2048, the single 2048-bit warning below 3072, nothing from 3072 on; row 1 replaced / appended, row 2 created) ----
 
     # ---- rule 2: size only when measured -----------------------------------------------------------------------------------
     sets = [n for m in repo.modules.values() for n in ast.walk(m.tree) if isinstance(n, ast.Call) and isinstance(n.func, ast.Attribute) and n.func.attr == 'set_dh_modulus_size']
@@ -159,34 +131,43 @@ def run(repo, rep, tier):
         pcs = [(unparse(t), p) for t, p, k in path_condition(sets[0]) if k == 'if']
         rep.check('measured', 'the size is recorded only when smallest_modulus > 0', ('smallest_modulus > 0', True) in pcs, sets[0], 'size recorded under %s' % pcs)
         rep.check('measured', 'the recorded size is the measured one, for the probed algorithm', [unparse(a) for a in sets[0].args] == ['gex_alg', 'smallest_modulus'], sets[0], 'set_dh_modulus_size arguments: %s' % [unparse(a) for a in sets[0].args])
-    sm = [n for n in walk_no_nested(si) if isinstance(n, ast.Assign) and unparse(n.targets[0]) == 'smallest_modulus']
-    vals = sorted(unparse(n.value) for n in sm)
-    rep.check('measured', '_send_init: size starts at the sentinel -1 and is only set from get_dh_modulus_size()', vals == ['-1', 'kex_group.get_dh_modulus_size()'], sm[0] if sm else si, 'definitions of the returned size: %s' % vals)
-    init = [n for n in sm if unparse(n.value) == '-1']
-    rep.check('measured', 'the sentinel is non-positive and assigned before the try', bool(init) and init[0] in si.body, si, 'sentinel initialisation moved')
-    tr = [n for n in si.body if isinstance(n, ast.Try)]
-    ok = len(tr) == 1
-    if ok:
-        c = CFG(si)
-        meas = c.stmts_matching(lambda st: isinstance(st, ast.Assign) and unparse(st.targets[0]) == 'smallest_modulus' and 'get_dh_modulus_size' in unparse(st.value))
-        send = c.stmts_matching(lambda st: isinstance(st, ast.Expr) and 'kex_group.send_init_gex(' in unparse(st))
-        recv = c.stmts_matching(lambda st: isinstance(st, ast.Expr) and 'kex_group.recv_reply(' in unparse(st))
-        rep.floor('measured', 'measurement statement', len(meas), 1)
-        ok1 = c.always_before(meas, send) and c.always_before(meas, recv)
-        rep.check('measured', 'the size is read only after the GEX request and the reply parse succeeded', ok1, meas[0].stmt, 'modulus size read before the exchange completed')
-        in_try = all(any(m.stmt is x for x in ast.walk(tr[0])) for m in meas + send + recv)
-        rep.check('measured', 'request, reply and measurement are inside the try block', in_try, tr[0], 'measurement outside the try')
-        hs = tr[0].handlers
-        for h in hs:
-            assigns = [n for n in ast.walk(h) if isinstance(n, ast.Assign) and unparse(n.targets[0]) == 'smallest_modulus']
+    # _send_init, interpreted along its no-exception path: with a successful reconnect it requests the group, parses the reply, THEN reads the modulus size and
+    # returns (size, False); with a failed reconnect it requests and measures nothing and returns (non-positive sentinel, True).  Exception paths: handlers set no size.
+    for reconnect_ok in (True, False):
+        order = []
+
+        def hook_si(call, e, interp, reconnect_ok=reconnect_ok, order=order):
+            t = call_name(call) or unparse(call.func)
+            if t.endswith('reconnect'):
+                return (True, reconnect_ok)
+            if t in ('kex_group.send_init_gex', 'kex_group.recv_reply', 's.close'):
+                order.append(t.split('.')[1])
+                return (True, None)
+            if t == 'kex_group.get_dh_modulus_size':
+                order.append('measure')
+                return (True, 2048)
+            return None
+        params = [a.arg for a in si.args.args]
+        env = {p_: Opaque() for p_ in params}
+        env.update({'gex_alg': 'g', 'gex_min': 2048, 'gex_nbits': 2048, 'gex_max': 2048, 'out.debug': False})
+        try:
+            finals = Interp(call_hook=hook_si, try_normal_path=True).run(si.body, env)
+        except Unknown as ex:
+            raise AnalysisError('GEXTest._send_init cannot be interpreted: %s' % ex)
+        rets = {repr(f.get('<return>')) for f in finals if f.get('<outcome>') == 'return'}
+        rep.evals()
+        if reconnect_ok:
+            ok = rets == {'(2048, False)'} and [o for o in order if o != 'close'] == ['send_init_gex', 'recv_reply', 'measure']
+            rep.check('measured', '_send_init: request, reply, then the size is read; returns (size, False)', ok, si, '_send_init with a working connection performs %s and returns %s' % (order, sorted(rets)), stmt='_send_init normal path')
+            rep.check('measured', 'the connection is closed after the probe', 'close' in order, si, '_send_init leaves the probe connection open (%s)' % order, stmt='_send_init close')
+        else:
+            vals = [f.get('<return>') for f in finals if f.get('<outcome>') == 'return']
+            ok = len(vals) == 1 and isinstance(vals[0], tuple) and len(vals[0]) == 2 and isinstance(vals[0][0], int) and vals[0][0] <= 0 and vals[0][1] is True and not [o for o in order if o != 'close']
+            rep.check('measured', 'a failed reconnect sets the flag and measures nothing', ok, si, '_send_init after a failed reconnect performs %s and returns %s' % (order, sorted(rets)), stmt='_send_init reconnect failure')
+    for tr_ in [n for n in walk_no_nested(si) if isinstance(n, ast.Try)]:
+        for h in tr_.handlers:
+            assigns = [n for n in ast.walk(h) if isinstance(n, (ast.Assign, ast.AugAssign)) and any('modulus' in unparse(t) for t in (n.targets if isinstance(n, ast.Assign) else [n.target]))]
             rep.check('measured', 'the exception handler leaves the sentinel', not assigns, h, 'handler sets a size: %s' % [unparse(a) for a in assigns])
-        fin = [unparse(s) for s in tr[0].finalbody]
-        rep.check('measured', 'the connection is closed in finally', fin == ['s.close()'], tr[0], 'finally body: %s' % fin)
-        rf = [n for n in walk_no_nested(si) if isinstance(n, ast.Assign) and unparse(n) == 'reconnect_failed = True']
-        okr = len(rf) == 1 and any('GEXTest.reconnect(' in unparse(t) and 'is False' in unparse(t) and p for t, p, k in path_condition(rf[0]))
-        rep.check('measured', 'a failed reconnect sets the flag and measures nothing', okr and not any(m.stmt in rf[0]._parent.body for m in meas), rf[0] if rf else si, 'reconnect-failure branch changed')
-    rets = [r for r in walk_no_nested(si) if isinstance(r, ast.Return)]
-    rep.check('measured', '_send_init returns (size, reconnect_failed)', len(rets) == 1 and unparse(rets[0].value) == '(smallest_modulus, reconnect_failed)', si, '_send_init return changed')
     sg = repo.func('kexdh', 'KexGroupExchange.send_init_gex')
     rep.saw(sg)
     chk = [n for n in walk_no_nested(sg) if isinstance(n, ast.If) and 'packet_type not in' in unparse(n.test)]
@@ -224,28 +205,33 @@ def run(repo, rep, tier):
     # ---- rule 4: OpenSSH 2048 note and suppression -----------------------------------------------------------------------------
     ppf = repo.func('ssh_audit', 'post_process_findings')
     rep.saw(ppf)
-    sup = [n for n in walk_no_nested(ppf) if isinstance(n, ast.Call) and unparse(n.func) == 'algorithm_recommendation_suppress_list.append']
-    rep.check('openssh-note', 'one suppression site for the GEX fallback', len(sup) == 1 and unparse(sup[0].args[0]) == "'diffie-hellman-group-exchange-sha256'", sup[0] if sup else ppf, 'suppression site changed')
-    if sup:
-        conds = [(t, p) for t, p, k in path_condition(sup[0]) if k == 'if']
-        A = 'diffie-hellman-group-exchange-sha256'
-        table = {
-            'algs.ssh2kex is not None': 'kexp', "'%s' in algs.ssh2kex.kex_algorithms" % A: 'offered', "'%s' in algs.ssh2kex.dh_modulus_sizes()" % A: 'recorded',
-            "algs.ssh2kex.dh_modulus_sizes()['%s'] == 2048" % A: 'is2048', 'banner is not None': 'banner', 'banner.software is not None': 'software', "banner.software.find('OpenSSH') != -1": 'openssh',
-        }
-        atz = text_atomizer(table)
-        atoms = ['kexp', 'offered', 'recorded', 'is2048', 'banner', 'software', 'openssh']
-        bad = []
-        for bits in itertools.product([False, True], repeat=len(atoms)):
-            v = dict(zip(atoms, bits))
-            got = all(eval_prop(t, atz, v) == p for t, p in conds)
+    # post_process_findings is interpreted (props/_terrapin.py) over {GEX-SHA256 offered} x {modulus recorded: none, 2048, 3072} x {banner: none, no software,
+    # OpenSSH, other}: the explanatory note lands in row 3 of that algorithm and the algorithm is suppressed from the recommendations exactly when it is
+    # offered, was measured at 2048 bits and the banner says OpenSSH
+    from props import _terrapin as T
+    A = T.GEXN
+    bad = []
+    nrows = 0
+    for kexp, gexin, size, ban in itertools.product([True, False], [True, False], [None, 2048, 3072], ['none', 'nosoft', 'OpenSSH_8.9p1', 'dropbear_2022.83']):
+        if not kexp and (gexin or size is not None):
+            continue
+        nrows += 1
+        val = {'kexp': kexp, 'client': False, 'c': False, 's': False, 'chacha': False, 'cbc': False, 'etm': False}
+        extra = {'algs.ssh2kex.dh_modulus_sizes()': ({A: size} if size is not None else {}), 'banner': None if ban == 'none' else Opaque(), 'banner.software': None if ban in ('none', 'nosoft') else ban}
+        finals, it, _t = T.interpret(repo, ppf, val, extra_env=extra, kex_extra=([A] if gexin else []))
+        want = kexp and gexin and size == 2048 and ban.startswith('OpenSSH')
+        for fe in finals:
             rep.evals()
-            if got != all(bits):
-                bad.append(v)
-        rep.check('openssh-note', 'note + suppression fire exactly when the algorithm is offered, measured at 2048 and the banner says OpenSSH (128 rows)', not bad, sup[0], 'OpenSSH fallback note fires under %s' % (bad[0] if bad else ''))
-        blk = sup[0]._parent._parent.body
-        noted = any("db['kex']['%s'][3].append(" % A in unparse(s) for s in blk)
-        rep.check('openssh-note', 'the bugzilla note is an info note (row 3) of the same algorithm, added in the same block', noted, sup[0], 'note placement changed')
+            r = fe.get('<return>')
+            if fe.get('<outcome>') != 'return' or not isinstance(r, tuple) or not isinstance(r[0], list):
+                raise AnalysisError('post_process_findings: suppression list not computable (forks: %s)' % fe.get('<forks>'))
+            rows_ = fe['<table>']['kex'][A]
+            noted = len(rows_) > 3 and any('OpenSSH' in str(t) or 'bugzilla' in str(t) or 'fallback' in str(t) for t in rows_[3])
+            if (A in r[0]) != want or noted != want:
+                bad.append(({'offered': gexin, 'modulus': size, 'banner': ban}, A in r[0], noted))
+    rep.floor('openssh-note', 'fallback-note rows interpreted', nrows, 20)
+    rep.check('openssh-note', 'note + suppression fire exactly when the algorithm is offered, measured at 2048 and the banner says OpenSSH (%d rows)' % nrows, not bad, ppf,
+              'OpenSSH fallback handling wrong for %s: suppressed=%s, note in row 3=%s' % (bad[0] if bad else ({}, None, None)), stmt='openssh fallback note table')
 
     # ---- the table the notes are written to is private to the scan (shared rule, props/_dbcopy.py) ----------------------------------------
     from props import _dbcopy
